@@ -130,4 +130,50 @@ theorem case_cond {S : Sem ν} {P : Prog ν} {T : Table ν} {G : List (List Name
           exact r1.fails (rj.fails (by simpa [encode_length, Nat.add_assoc] using ihe.2 err he))
       | _ => simp at he
 
+theorem fieldIdx_lt {info : StructInfo} {field : Name} {i : Nat} (h : fieldIdx info field = some i) :
+    i < info.fields.length := by
+  simp only [fieldIdx] at h
+  split at h
+  · injection h with h; subst h; assumption
+  · cases h
+
+theorem case_fld {S : Sem ν} {P : Prog ν} {T : Table ν} {G : List (List Name)} {n : Nat}
+    (ih : ExprOK S P T G n) (e : Expr ν) (field : Name) (info : StructInfo) :
+    ExprOKAt S P T G (n + 1) (.fld e field info) := by
+  intro ρ cs cs' frag m f fs hcomp hcode hlt hfit hctx hpos hconst hlay hlast
+  simp only [compileExpr, Res.bind_eq_ok] at hcomp
+  obtain ⟨cs1, h1, h2⟩ := hcomp
+  simp only [fitsE, Bool.and_eq_true, decide_eq_true_eq] at hfit
+  cases hidx : fieldIdx info field with
+  | none => simp [hidx] at h2
+  | some idx =>
+    simp only [hidx] at h2
+    injection h2 with h2; subst h2
+    have hi : idx < 65536 := Nat.lt_trans (fieldIdx_lt hidx) hfit.1
+    obtain ⟨f1, rfl, hok, herr⟩ := unary_case ih h1 hcode hlt hfit.2 hctx hpos hconst hlay hlast
+    refine ⟨?_, ?_⟩
+    · intro v hv
+      simp only [eval, Res.bind_eq_ok, hidx] at hv
+      obtain ⟨a, ha, hv⟩ := hv
+      obtain ⟨r1, p1⟩ := hok a ha
+      cases a with
+      | struct info' vs =>
+        simp only at hv
+        cases hvi : vs[idx]? with
+        | none => simp [hvi] at hv
+        | some x =>
+          simp [hvi] at hv; subst hv
+          have r2 := Runs.step (step_accessField (S := S) p1 hi (s := m.stack) (info := info') (vs := vs) rfl hvi)
+          simpa [encode_length, Nat.add_assoc] using r1.trans r2
+      | _ => simp at hv
+    · intro err he
+      simp only [eval, Res.bind_eq_err, hidx] at he
+      rcases he with he | ⟨a, _, he⟩
+      · exact herr err he
+      · cases a with
+        | struct info' vs =>
+          simp only at he
+          cases hvi : vs[idx]? <;> simp [hvi] at he
+        | _ => simp at he
+
 end NumbatModel.VM
